@@ -172,24 +172,30 @@ def body(nfiles, fields, shapes, widths, tty):
         exp.append(('width', dict.__getitem__(files[fns[0]].tree['data'], fld).dtype.itemsize))
         for fn in fns:
             exp.append(('payload', dict.__getitem__(files[fn].tree['data'], fld).arr))
-    ok = len(exp) == len(pipe.log) and pipe.closed == 1
+    # the property is about the byte STREAM (how the bytes are split into write() calls is the implementation's business)
+    def tob(x):
+        if isinstance(x, (bytes, bytearray, memoryview)):
+            return bytes(x)
+        return real_np.asarray(x).tobytes()
+    got_stream = b''.join(tob(x) for x in pipe.log)
+    exp_stream = b''.join(real_np.int64(v).tobytes() if kind == 'count' else real_np.int32(v).tobytes() if kind == 'width' else v.tobytes() for kind, v in exp)
+    ok = got_stream == exp_stream and pipe.closed == 1
     detail = ''
-    if ok:
-        for (kind, v), got in zip(exp, pipe.log):
-            if kind == 'count':
-                good = isinstance(got, real_np.int64) and got.nbytes == 8 and int(got) == v
-            elif kind == 'width':
-                good = isinstance(got, real_np.int32) and got.nbytes == 4 and int(got) == v
-            else:
-                good = isinstance(got, real_np.ndarray) and got.dtype == v.dtype and got.tobytes() == v.tobytes()
-            if not good:
-                ok = False
-                detail = f'{kind}: wrote {type(got).__name__} {got!r:.80}, expected {v!r:.80}'
-                break
-    c.prove(z3.BoolVal(ok), 'per field, in request order: int64 element count, int32 item width, then each file\'s raw array in argument order',
+    if not ok:
+        k = next((i for i, (a, b) in enumerate(zip(got_stream, exp_stream)) if a != b), min(len(got_stream), len(exp_stream)))
+        detail = f'{len(got_stream)} bytes written, {len(exp_stream)} expected; first difference at byte {k}; pipe closed {pipe.closed}x'
+    c.prove(z3.BoolVal(ok), 'per field, in request order: int64 element count, int32 item width, then each file\'s raw array bytes in argument order',
             key='pipe:framing', info=dict(detail=detail))
-    total_ok = all(int(pipe.log[k]) * int(pipe.log[k + 1]) == sum(p.nbytes for p in pipe.log[k + 2:k + 2 + nfiles])
-                   for k in range(0, len(pipe.log), 2 + nfiles)) if ok else False
+    # count x width = payload bytes, parsed back from what was actually written
+    pos, total_ok = 0, True
+    for fld in fields:
+        if pos + 12 > len(got_stream):
+            total_ok = False
+            break
+        cnt = int(real_np.frombuffer(got_stream[pos:pos + 8], dtype=real_np.int64)[0])
+        wid = int(real_np.frombuffer(got_stream[pos + 8:pos + 12], dtype=real_np.int32)[0])
+        pos += 12 + cnt * wid
+    total_ok = total_ok and pos == len(got_stream)
     c.prove(z3.BoolVal(total_ok), 'count x width equals the number of payload bytes that follow', key='pipe:bytes')
 
 
@@ -209,7 +215,31 @@ def items(tier, seed):
                     out.append(dict(name=f'files={nfiles}/fields={"".join(flds)}/shapes={si}/widths={wi}', nfiles=nfiles, fields=flds,
                                     shapes=shapes, widths=widths, tty=False))
     out.append(dict(name='tty', nfiles=1, fields=('a',), shapes={'a': [(3,)]}, widths={'a': 4}, tty=True))
+    # size thresholds: every integer constant >= 256 that the CURRENT source of unpack_to_pipe (or its module) contains is taken as a
+    # byte / element threshold, and file contributions just below, at and above it are mixed with tiny ones in every order
+    for K in code_thresholds():
+        for w in (1, 8):
+            big = max(1, K // w)
+            for order in (((3,), (big,), (2,)), ((big,), (3,), (big - 1,)), ((2,), (big + 1,), (0,))):
+                out.append(dict(name=f'threshold={K}/width={w}/shapes={"-".join(str(x[0]) for x in order)}', nfiles=3, fields=('a', 'b'),
+                                shapes={'a': list(order), 'b': [(1,), (2,), (0,)]}, widths={'a': w, 'b': 4}, tty=False))
     return out
+
+
+def code_thresholds():
+    acc = set()
+
+    def consts(code):
+        for k in code.co_consts:
+            if isinstance(k, int) and not isinstance(k, bool):
+                acc.add(k)
+            elif hasattr(k, 'co_consts'):
+                consts(k)
+    consts(pa.unpack_to_pipe.__code__)
+    for k, v in vars(pa).items():
+        if isinstance(v, int) and not isinstance(v, bool) and not k.startswith('__'):
+            acc.add(v)
+    return sorted(k for k in acc if 256 <= k <= (1 << 22))
 
 
 def run(item):
